@@ -422,6 +422,8 @@ def run_reload_real(ctx, cases):
         ctx.count(("real-loop", repr(steps)), kind="mainloop/" + tag)
         case = {"steps": [[list(f), list(s)] for f, s in steps]}
         obs = r["obs"]
+        if obs and str(obs[0].get("conn", "")).startswith("panic"):
+            ctx.fail("panic:print/connStats", "connStats.PrintAndReset panicked after start-up: %s" % obs[0]["conn"], dict(case, step=0))
         if not obs or obs[0]["stage"] != "ok":
             continue
         cur = (obs[0]["covert"], obs[0]["loop"], obs[0]["phantom"])
